@@ -175,3 +175,55 @@ def strip : List Html → List Nat
   | .close :: r => strip r
 
 end TantivyModel.Snip
+
+namespace TantivyModel.Snip
+
+/-! ### the rendering as characters, and its inverse -/
+
+/-- the text `htmlescape::encode_minimal` writes for one of the five special characters -/
+def entityChars (c : Nat) : List Nat :=
+  if c = 0x22 then [38, 113, 117, 111, 116, 59]        -- &quot;
+  else if c = 0x26 then [38, 97, 109, 112, 59]         -- &amp;
+  else if c = 0x27 then [38, 35, 120, 50, 55, 59]      -- &#x27;
+  else if c = 0x3C then [38, 108, 116, 59]             -- &lt;
+  else [38, 103, 116, 59]                              -- &gt;
+
+def renderOne : Html → List Nat
+  | .raw c => [c]
+  | .ent c => entityChars c
+  | .open_ => Gen.SNIPPET_PREFIX
+  | .close => Gen.SNIPPET_POSTFIX
+
+/-- the string `to_html` returns, as scalar values (the driver UTF-8-encodes exactly this) -/
+def renderChars (h : List Html) : List Nat := h.flatMap renderOne
+
+/-- what a reader of the HTML does: the five entities become their character, `<b>` and `</b>`
+disappear, everything else is kept -/
+def unescapeChars : List Nat → List Nat
+  | 38 :: 113 :: 117 :: 111 :: 116 :: 59 :: r => 0x22 :: unescapeChars r
+  | 38 :: 97 :: 109 :: 112 :: 59 :: r => 0x26 :: unescapeChars r
+  | 38 :: 35 :: 120 :: 50 :: 55 :: 59 :: r => 0x27 :: unescapeChars r
+  | 38 :: 108 :: 116 :: 59 :: r => 0x3C :: unescapeChars r
+  | 38 :: 103 :: 116 :: 59 :: r => 0x3E :: unescapeChars r
+  | 60 :: 98 :: 62 :: r => unescapeChars r
+  | 60 :: 47 :: 98 :: 62 :: r => unescapeChars r
+  | c :: r => c :: unescapeChars r
+  | [] => []
+
+end TantivyModel.Snip
+
+namespace TantivyModel.Snip
+
+/-- the (un-escaped) texts enclosed by the highlight tags of a rendering, in order; `cur` = the
+text collected since the last `<b>` (none outside a tag) -/
+def taggedAux : Option (List Nat) → List Html → List (List Nat)
+  | _, [] => []
+  | none, .open_ :: r => taggedAux (some []) r
+  | some acc, .close :: r => acc :: taggedAux none r
+  | some acc, .raw c :: r => taggedAux (some (acc ++ [c])) r
+  | some acc, .ent c :: r => taggedAux (some (acc ++ [c])) r
+  | cur, _ :: r => taggedAux cur r
+
+def tagged (h : List Html) : List (List Nat) := taggedAux none h
+
+end TantivyModel.Snip
